@@ -235,11 +235,48 @@ func srvMalformedCorpus() []*CaseSpec {
 	return out
 }
 
+// srvFlushCorpus: a server without the RIB's check function holding entries whose group lives in
+// an instance that does not exist (nothing validates that there): a flush of their instance, and
+// of all instances, still removes them and answers OK.
+func srvFlushCorpus() []*CaseSpec {
+	cfg := &SrvGenCfg{Srv: SrvCfg{Fwd: true, NoCheck: true, VRFs: []string{"VRF1"}, Default: "DEFAULT"}, Pools: DefaultPools()}
+	out := []*CaseSpec{}
+	for variant := 0; variant < 2; variant++ {
+		b := &cutBuilder{next: 1}
+		c := b.connect()
+		b.params(c, false)
+		b.announce(c)
+		mk := func(e func(op *spb.AFTOperation)) *spb.AFTOperation {
+			b.opID++
+			op := &spb.AFTOperation{Id: b.opID, NetworkInstance: "VRF1", Op: spb.AFTOperation_ADD, ElectionId: b.id()}
+			e(op)
+			return op
+		}
+		b.ops(c, &spb.ModifyRequest{Operation: []*spb.AFTOperation{
+			mk(func(op *spb.AFTOperation) {
+				op.Entry = &spb.AFTOperation_Ipv4{Ipv4: &aftpb.Afts_Ipv4EntryKey{Prefix: "10.0.0.0/8", Ipv4Entry: &aftpb.Afts_Ipv4Entry{NextHopGroup: uv(1), NextHopGroupNetworkInstance: sv("NO-SUCH-VRF")}}}
+			}),
+			mk(func(op *spb.AFTOperation) {
+				op.Entry = &spb.AFTOperation_Mpls{Mpls: &aftpb.Afts_LabelEntryKey{Label: &aftpb.Afts_LabelEntryKey_LabelUint64{LabelUint64: 1048575}, LabelEntry: &aftpb.Afts_LabelEntry{NextHopGroup: uv(1), NextHopGroupNetworkInstance: sv("NO-SUCH-VRF")}}}
+			}),
+		}})
+		if variant == 0 {
+			b.evs = append(b.evs, SEv{Kind: "flush", Flush: &spb.FlushRequest{NetworkInstance: &spb.FlushRequest_Name{Name: "VRF1"}, Election: &spb.FlushRequest_Id{Id: b.id()}}})
+		} else {
+			b.evs = append(b.evs, SEv{Kind: "flush", Flush: &spb.FlushRequest{NetworkInstance: &spb.FlushRequest_All{All: &spb.Empty{}}, Election: &spb.FlushRequest_Override{Override: &spb.Empty{}}}})
+		}
+		b.evs = append(b.evs, SEv{Kind: "get", Get: getAll(), GetFail: -1})
+		out = append(out, srvCase(fmt.Sprintf("srv.flushget/corpus/nocheck-unknown-group-instance/%d", variant), cfg, b.evs))
+	}
+	return out
+}
+
 func init() {
 	regSrvMode("srv.election", "election", 150, 1500, []string{"msg.elec.open", "msg.ops.open"})
 	regSrvMode("srv.answers", "answers", 150, 1500, []string{"msg.ops.open", "add.cascade"})
 	modes["srv.answers"].Corpus = srvAnswersCorpus
 	defer func() { modes["srv.malformed"].Corpus = srvMalformedCorpus }()
+	defer func() { modes["srv.flushget"].Corpus = srvFlushCorpus }()
 	regSrvMode("srv.protocol", "protocol", 200, 2000, []string{"msg.multi.3", "msg.empty.12", "msg.params.open"})
 	regSrvMode("srv.malformed", "malformed", 150, 1500, []string{"msg.ops.open"})
 	regSrvMode("srv.flushget", "flushget", 150, 1500, []string{"flush.ok", "flush.rejected", "get.ok", "get.err", "rebuild.ok"})
